@@ -440,6 +440,7 @@ def r5_exclude_output(ctx, rep):
     rep.ob("find_all_files honours exclude_dir", ok, "files under excluded directories are dropped", py.nloc(faf))
 
 
+
 def r6_pagetree_lexical(ctx, rep):
     """PageNode.location = relpath(path.parent, topdir) stays below the page directory only if both sides
     are the same lexical joins below page_dir: resolving symbolic links on one side lets a linked
